@@ -4,7 +4,8 @@
     Instant2  the month loops of `add` (`addUp`/`addDown`/`addDays`), `carry`
     Instant3  `add` and `diff` on normal instants, injectivity of `absMs`/`absSec`
     Instant4  `fixup`
-    Instant5  epoch conversions and the daemon timestamp
+    Instant5  epoch conversions: `__inst_to_epoch`, the year/month steps of `__epoch_to_inst` (1900-03-01 … 2100-02-28)
+    Instant6  `__epoch_to_inst` (signed), the years 1901..2099, the daemon timestamp
   Core Lean only.
 -/
 import Echse.Lemmas.Instant1
@@ -12,3 +13,4 @@ import Echse.Lemmas.Instant2
 import Echse.Lemmas.Instant3
 import Echse.Lemmas.Instant4
 import Echse.Lemmas.Instant5
+import Echse.Lemmas.Instant6
